@@ -393,7 +393,7 @@ func CorpusGenerics(seed int64, tier string) []*Case {
 		tps  []TypeParam
 	}
 	var gs []g
-	constraints := []string{"any", "comparable", "stringer", "union", "method", "pkgnum:1", "mixed", "ustring", "ufloat", "ubytes"}
+	constraints := []string{"any", "comparable", "stringer", "union", "method", "pkgnum:1", "mixed", "ustring", "ufloat", "ubytes", "cmpunion", "unioncmp", "localkey", "markerunion", "pkgkey:1"}
 	for _, c := range constraints {
 		gs = append(gs, g{"G1" + strings.NewReplacer(":", "", "1", "").Replace(c), []TypeParam{{Name: "T", Constraint: c}}})
 	}
@@ -403,6 +403,8 @@ func CorpusGenerics(seed int64, tier string) []*Case {
 	}
 	gs = append(gs, g{"GNumA", []TypeParam{{Name: "N", Constraint: "pkgnum:1"}, {Name: "V", Constraint: "any"}}}, g{"GNumB", []TypeParam{{Name: "V", Constraint: "any"}, {Name: "N", Constraint: "pkgnum:2"}}},
 		g{"GIfaceA", []TypeParam{{Name: "K", Constraint: "pkgiface:1"}, {Name: "V", Constraint: "any"}}}, g{"GIfaceB", []TypeParam{{Name: "K", Constraint: "pkgiface:2"}}})
+	gs = append(gs, g{"GKeyB", []TypeParam{{Name: "V", Constraint: "any"}, {Name: "K", Constraint: "pkgkey:2"}}},
+		g{"GInit", []TypeParam{{Name: "Id", Constraint: "cmpunion"}, {Name: "url", Constraint: "any"}}}, g{"GLower2", []TypeParam{{Name: "kk", Constraint: "localkey"}, {Name: "vv", Constraint: "stringer"}}})
 	gs = append(gs, g{"GLower", []TypeParam{{Name: "t", Constraint: "any"}}}, g{"GSwap", []TypeParam{{Name: "B", Constraint: "any"}, {Name: "A", Constraint: "stringer"}}},
 		g{"G3", []TypeParam{{Name: "A", Constraint: "any"}, {Name: "B", Constraint: "union"}, {Name: "C", Constraint: "any"}}})
 	for i, x := range gs {
